@@ -58,6 +58,7 @@ def _hist(draw, nmax):
                     st.sampled_from(MODES), st.integers(0, 7), st.sampled_from(TAGS),
                     st.sampled_from(LEVELS), st.lists(st.integers(-5, 5), min_size=2 * n, max_size=2 * n),
                     st.booleans(), st.sampled_from([False, False, True]))
+    add = st.builds(lambda a, sc: dict(a, scribble=sc), add, st.sampled_from([False, False, True]))
     setres = st.builds(lambda lev: {"op": "res", "lev": lev}, st.sampled_from(LEVELS + ["bogus"]))
     ops = draw(st.lists(st.one_of(add, add, add, add, setres), min_size=1, max_size=nmax))
     first = draw(st.sampled_from([None, None, "pathways", "types", "processes", "signals", "off"]))
@@ -360,6 +361,7 @@ def check_case(case, ctx):
                 admissible = False          # duplicate tag
                 mode = "duptag"
         where = "%s@%s/%s" % (level, eff_storage, mode)
+        arr_val = arr.copy()         # the contribution, as it is at the time of the addition
         if op.get("own"):
             given = arr
             held.append((arr, arr.copy()))
@@ -377,6 +379,11 @@ def check_case(case, ctx):
             if not numpy.array_equal(obj, snap):
                 ctx.fail("add/callers-array-changed", where, step=step)
                 return
+        if op.get("own") and op.get("scribble") and not raised:
+            # the caller goes on using its array for something else: what was added stays what it was
+            held[:] = [(o_, s_) for o_, s_ in held if o_ is not given]
+            given += 7.0 - 3.0j
+            ctx.label("add:caller-overwrites-its-array-afterwards")
         if not initialized and not raised:
             initialized = True
             storage = eff_storage
@@ -396,7 +403,7 @@ def check_case(case, ctx):
                 if level not in LEVELS or key not in KEYS.get(level, []):
                     ctx.fail("add/accepted-inadmissible", where, step=step, key=key, tag=tag)
                     return
-            adds.append({"level": level, "key": key, "tag": tag, "arr": arr.copy()})
+            adds.append({"level": level, "key": key, "tag": tag, "arr": arr_val})
         if tw.get_resolution() != storage:
             ctx.fail("add/bookkeeping", where, got=tw.get_resolution(), want=storage, step=step)
             return
